@@ -70,6 +70,25 @@ def write(prop, spec, tier, seed, outcome, wall, partial=False):
         "repo": runner.repo_revision(),
         "partial_run": partial,
     }
+    if level == "model_checking":
+        # Bounded model checking is symbolic: states are not enumerated one by one.  What is
+        # measured per query is the size of the unwound program the solver reasons about.
+        steps = sum(r.steps for r in ok)
+        clauses = sum(r.clauses for r in ok)
+        coverage.update(
+            {
+                "states": max(steps, 1) if ok else 0,
+                "transitions": max(clauses, 1) if ok else 0,
+                "traces_validated_against_impl": outcome.traces_validated,
+                "states_transitions_meaning": (
+                    "states = symbolic-execution steps of the unwound programs (CBMC 'size of program expression', summed over "
+                    "the discharged queries): each is one SSA program state standing for ALL concrete states within the bound; "
+                    "transitions = clauses of the SAT encodings of those programs' transition relations (summed); "
+                    "traces_validated_against_impl = counterexample traces (plus recorded-finding witnesses) re-executed on the "
+                    "natively compiled real code in this run"
+                ),
+            }
+        )
     if level == "proof":
         coverage.update(
             {
